@@ -46,6 +46,19 @@ def _flag_set(it, expect, t) -> Optional[Set[str]]:
     if t[0] == "cmp" and t[1] == "Eq" and expect in (t[2], t[3]):
         o = t[3] if t[2] == expect else t[2]
         return {o[2]} if o[0] == "const" and isinstance(o[2], str) else None
+    # a lookup table instead of a set test:  FLAGS[NAMES.index(expect)]  (two parallel tuples of constants)  or  {name: flag}[expect]
+    if t[0] == "sub" and t[1][0] == "tuple" and t[2][0] == "call" and t[2][1][0] == "attr" and t[2][1][2] == "index" \
+            and t[2][2] == (expect,) and t[2][1][1][0] == "tuple":
+        names, flags = t[2][1][1][1], t[1][1]
+        if len(names) == len(flags) and all(x[0] == "const" and isinstance(x[2], str) for x in names) \
+                and all(x[0] == "const" and isinstance(x[2], bool) for x in flags):
+            return {n_[2] for n_, f_ in zip(names, flags) if f_[2]}
+    if t[0] in ("sub", "call") and ((t[0] == "sub" and t[1][0] == "dictlit" and t[2] == expect)
+                                     or (t[0] == "call" and t[1][0] == "attr" and t[1][2] == "get" and t[1][1][0] == "dictlit"
+                                         and t[2][:1] == (expect,) and (len(t[2]) == 1 or t[2][1] in (("const", "bool", False), ("const", "NoneType", None))))):
+        pairs = t[1][1] if t[0] == "sub" else t[1][1][1]
+        if all(k_[0] == "const" and isinstance(k_[2], str) and v_[0] == "const" and isinstance(v_[2], bool) for k_, v_ in pairs):
+            return {k_[2] for k_, v_ in pairs if v_[2]}
     if t[0] == "bool" and t[1] == "or":
         out: Set[str] = set()
         for x in t[2]:
